@@ -91,6 +91,10 @@ func instrumentTree(root string) (points int, files int, err error) {
 				}
 			}
 		}
+		chanNames = map[string]bool{}
+		for _, af := range parsed {
+			collectChanNames(af, chanNames)
+		}
 		for i, f := range fl {
 			n, out, err := instrumentFile(fset, parsed[i], srcs[i], pkgVars)
 			if err != nil {
@@ -106,6 +110,74 @@ func instrumentTree(root string) (points int, files int, err error) {
 		}
 	}
 	return points, files, nil
+}
+
+// chanNames: names (variables, parameters, struct fields) that are declared
+// with a channel type, or assigned a make(chan ...), somewhere in the package
+// being instrumented. The instrumenter has no type information; a `range X`
+// whose X is such a name (or a selector ending in one) is taken to range over
+// a channel. (A missed one leaves a real blocking receive in the library: the
+// simulation hangs and the watchdog reports infrastructure trouble, never a
+// verdict.)
+var chanNames = map[string]bool{}
+
+func collectChanNames(af *ast.File, set map[string]bool) {
+	isChanType := func(e ast.Expr) bool {
+		for {
+			switch t := e.(type) {
+			case *ast.ParenExpr:
+				e = t.X
+				continue
+			case *ast.ChanType:
+				return true
+			}
+			return false
+		}
+	}
+	isMakeChan := func(e ast.Expr) bool {
+		c, ok := e.(*ast.CallExpr)
+		if !ok || len(c.Args) == 0 {
+			return false
+		}
+		id, ok := c.Fun.(*ast.Ident)
+		return ok && id.Name == "make" && isChanType(c.Args[0])
+	}
+	nameOf := func(e ast.Expr) string {
+		switch t := e.(type) {
+		case *ast.Ident:
+			return t.Name
+		case *ast.SelectorExpr:
+			return t.Sel.Name
+		}
+		return ""
+	}
+	ast.Inspect(af, func(x ast.Node) bool {
+		switch v := x.(type) {
+		case *ast.ValueSpec:
+			for i, n := range v.Names {
+				if (v.Type != nil && isChanType(v.Type)) || (i < len(v.Values) && isMakeChan(v.Values[i])) {
+					set[n.Name] = true
+				}
+			}
+		case *ast.Field:
+			if isChanType(v.Type) {
+				for _, n := range v.Names {
+					set[n.Name] = true
+				}
+			}
+		case *ast.AssignStmt:
+			if len(v.Lhs) == len(v.Rhs) {
+				for i, r := range v.Rhs {
+					if isMakeChan(r) {
+						if n := nameOf(v.Lhs[i]); n != "" && n != "_" {
+							set[n] = true
+						}
+					}
+				}
+			}
+		}
+		return true
+	})
 }
 
 func hasPragma(doc *ast.CommentGroup) bool {
@@ -129,6 +201,7 @@ func instrumentFile(fset *token.FileSet, af *ast.File, src []byte, pkgVars map[s
 	var ins []insertion
 	var hoists []hoist
 	selectLabel := map[*ast.SelectStmt]int{}
+	rangeLabel := map[*ast.RangeStmt]*ast.LabeledStmt{}
 	points := 0
 	const call = "zzsimrt.Point(); "
 
@@ -196,8 +269,34 @@ func instrumentFile(fset *token.FileSet, af *ast.File, src []byte, pkgVars map[s
 						return false
 					}
 				case *ast.SendStmt:
-					ins = append(ins, insertion{off(st.Pos()), "zzsimrt.WaitSend(" + string(src[off(v.Chan.Pos()):off(v.Chan.End())]) + "); ", 0})
+					chText := string(src[off(v.Chan.Pos()):off(v.Chan.End())])
+					if ast.Stmt(v) == st {
+						// { zzh := WaitSend(ch); ch <- v; AfterSend(zzh) }: a sender on an
+						// unbuffered channel hands the baton to its receiver and
+						// re-enters the simulation after the real send
+						h := fmt.Sprintf("zzh%d", off(st.Pos()))
+						ins = append(ins, insertion{off(st.Pos()), "{ " + h + " := zzsimrt.WaitSend(" + chText + "); ", 0})
+						ins = append(ins, insertion{off(st.End()), "; zzsimrt.AfterSend(" + h + ") }", 0})
+					} else {
+						ins = append(ins, insertion{off(st.Pos()), "zzsimrt.AfterSend(zzsimrt.WaitSend(" + chText + ")); ", 0})
+					}
 					points++
+				case *ast.CallExpr:
+					if id, ok := v.Fun.(*ast.Ident); ok && id.Name == "close" && id.Obj == nil && len(v.Args) == 1 {
+						arg := string(src[off(v.Args[0].Pos()):off(v.Args[0].End())])
+						switch s := st.(type) {
+						case *ast.ExprStmt:
+							if s.X == ast.Expr(v) {
+								ins = append(ins, insertion{off(st.Pos()), "zzsimrt.Closing(" + arg + "); ", 0})
+								points++
+							}
+						case *ast.DeferStmt:
+							if s.Call == v {
+								ins = append(ins, insertion{off(v.Pos()), "func() { zzsimrt.Closing(" + arg + "); close(" + arg + ") }()", off(v.End()) - off(v.Pos())})
+								points++
+							}
+						}
+					}
 				case *ast.UnaryExpr:
 					if v.Op == token.ARROW {
 						ins = append(ins, insertion{off(st.Pos()), "zzsimrt.WaitRecv(" + string(src[off(v.X.Pos()):off(v.X.End())]) + "); ", 0})
@@ -345,6 +444,51 @@ func instrumentFile(fset *token.FileSet, af *ast.File, src []byte, pkgVars map[s
 				body(v.Body)
 			case *ast.RangeStmt:
 				body(v.Body)
+				xname := ""
+				switch t := v.X.(type) {
+				case *ast.Ident:
+					xname = t.Name
+				case *ast.SelectorExpr:
+					xname = t.Sel.Name
+				}
+				if xname != "" && chanNames[xname] {
+					// the implicit receives of a range over a channel: wait in
+					// front of the loop, at the end of its body and in front of
+					// every continue that belongs to it
+					wait := "zzsimrt.WaitRecv(" + string(src[off(v.X.Pos()):off(v.X.End())]) + "); "
+					target, label := off(v.Pos()), ""
+					if ls, ok := rangeLabel[v]; ok {
+						target, label = off(ls.Pos()), ls.Label.Name
+					}
+					ins = append(ins, insertion{target, wait, 0})
+					ins = append(ins, insertion{off(v.Body.Rbrace), "; " + wait, 0})
+					var walk func(n ast.Node, nested bool)
+					walk = func(n ast.Node, nested bool) {
+						ast.Inspect(n, func(x ast.Node) bool {
+							if x == nil || x == n {
+								return true
+							}
+							switch b := x.(type) {
+							case *ast.FuncLit:
+								return false
+							case *ast.ForStmt:
+								walk(b.Body, true)
+								return false
+							case *ast.RangeStmt:
+								walk(b.Body, true)
+								return false
+							case *ast.BranchStmt:
+								if b.Tok == token.CONTINUE && ((b.Label == nil && !nested) || (b.Label != nil && b.Label.Name == label && label != "")) {
+									ins = append(ins, insertion{off(b.Pos()), "{ " + wait, 0})
+									ins = append(ins, insertion{off(b.End()), " }", 0})
+								}
+							}
+							return true
+						})
+					}
+					walk(v.Body, false)
+					points++
+				}
 			case *ast.BlockStmt:
 				doList(v.List)
 			case *ast.CaseClause:
@@ -370,6 +514,9 @@ func instrumentFile(fset *token.FileSet, af *ast.File, src []byte, pkgVars map[s
 				if sel, ok := v.Stmt.(*ast.SelectStmt); ok {
 					selectLabel[sel] = off(v.Pos())
 				}
+				if rs, ok := v.Stmt.(*ast.RangeStmt); ok {
+					rangeLabel[rs] = v
+				}
 			case *ast.SelectStmt:
 				// a select with a default clause never blocks. A blocking one
 				// would park the client while it holds the baton, so it is
@@ -382,6 +529,39 @@ func instrumentFile(fset *token.FileSet, af *ast.File, src []byte, pkgVars map[s
 				for _, cl := range v.Body.List {
 					if cc, ok := cl.(*ast.CommClause); ok && cc.Comm == nil {
 						hasDefault = true
+					}
+				}
+				if hasDefault {
+					var texts []string
+					for _, cl := range v.Body.List {
+						cc := cl.(*ast.CommClause)
+						var e ast.Expr
+						switch c := cc.Comm.(type) {
+						case *ast.SendStmt:
+							e = c.Chan
+						case *ast.ExprStmt:
+							if u, ok := c.X.(*ast.UnaryExpr); ok && u.Op == token.ARROW {
+								e = u.X
+							}
+						case *ast.AssignStmt:
+							if len(c.Rhs) == 1 {
+								if u, ok := c.Rhs[0].(*ast.UnaryExpr); ok && u.Op == token.ARROW {
+									e = u.X
+								}
+							}
+						}
+						if e != nil {
+							if _, isCall := e.(*ast.CallExpr); !isCall {
+								texts = append(texts, string(src[off(e.Pos()):off(e.End())]))
+							}
+						}
+					}
+					if len(texts) > 0 {
+						t := off(v.Pos())
+						if lp, ok := selectLabel[v]; ok {
+							t = lp
+						}
+						ins = append(ins, insertion{t, "zzsimrt.SelectCheck(" + strings.Join(texts, ", ") + "); ", 0})
 					}
 				}
 				if !hasDefault {
@@ -477,6 +657,7 @@ func instrumentFile(fset *token.FileSet, af *ast.File, src []byte, pkgVars map[s
 						})
 						return found
 					}
+					var chanTexts []string
 					for ci, cl := range v.Body.List {
 						cc := cl.(*ast.CommClause)
 						var exprs []ast.Expr
@@ -495,10 +676,18 @@ func instrumentFile(fset *token.FileSet, af *ast.File, src []byte, pkgVars map[s
 							}
 						}
 						for ei, e := range exprs {
+							text := string(src[off(e.Pos()):off(e.End())])
 							if hasCall(e) {
-								hoists = append(hoists, hoist{off(e.Pos()), off(e.End()), target, fmt.Sprintf("zzsel%d_%d_%d", off(v.Pos()), ci, ei)})
+								text = fmt.Sprintf("zzsel%d_%d_%d", off(v.Pos()), ci, ei)
+								hoists = append(hoists, hoist{off(e.Pos()), off(e.End()), target, text})
+							}
+							if _, isSend := cc.Comm.(*ast.SendStmt); !isSend || ei == 0 {
+								chanTexts = append(chanTexts, text)
 							}
 						}
+					}
+					if len(chanTexts) > 0 {
+						ins = append(ins, insertion{target, "zzsimrt.SelectCheck(" + strings.Join(chanTexts, ", ") + "); ", 0})
 					}
 					ins = append(ins, insertion{off(v.Pos()), "for { ", 0})
 					if allLeave {
